@@ -241,7 +241,9 @@ def pydantic_init(eng, st, ref, ci, kw, node):
             ft = st.field_type(name)
             base = ft[1] if ft[0] == "opt" else ft
             if base[0] == "list" and v.t[0] in ("list", "nd"):
-                v = st.new_seq(base[1], "list", st.seq_len(v), st.seq_elems(v), "field")   # pydantic copies lists
+                nv_ = st.new_seq(base[1], "list", st.seq_len(v), st.seq_elems(v), "field")   # pydantic copies lists
+                nv_.none = v.none                                                              # (None stays None)
+                v = nv_
             st.init_field(ref, name, v)
         elif default is not None:
             st.init_field(ref, name, eng.eval(st, default))
@@ -316,6 +318,20 @@ def lib_np_dot(eng, st, args, kw, node):
 
 
 LIB[("numpy", "dot")] = lib_np_dot
+
+
+def lib_np_array(eng, st, args, kw, node):
+    """np.array(sequence of scalars): a fresh array with the same elements in the same order (value conversion between
+    python and numpy scalars is the identity of the abstract value sort)"""
+    a = args[0]
+    if len(args) == 1 and not kw and a.t[0] in ("list", "nd") and a.t[1][0] in ("val", "float", "int"):
+        eng.ctx.tags.add("AX_numpy_array_keeps_the_elements")
+        return st.new_seq(a.t[1], "nd", st.seq_len(a), st.seq_elems(a), "nparray")
+    raise Unsupported(f"np.array of {a.t}")
+
+
+LIB[("numpy", "array")] = lib_np_array
+LIB[("numpy", "finfo")] = lambda eng, st, args, kw, node: static("finfo", None)
 
 
 def lib_np_random_seed(eng, st, args, kw, node):
